@@ -81,6 +81,8 @@ def build():
         add('oncep_nested_block_w', 'once_basic.c', ['caller_nested', 'caller_block', 'final_check'], R - 1, ONCE_UNITS, nfinal=1, excl=ONLY_MU, timeout=6000,
             extra=dict(BIG, prune_calls=[['nsync_mu_lock', 'nsync_waiter_new_'], ['nsync_mu_rlock', 'nsync_waiter_new_']]),
             unroll={'*': 1, 'nsync_cv_broadcast': 2, 'wake_waiters': 2, 'nsync_mu_unlock_slow_': 2, 'nsync_cv_wait_with_deadline_generic': 2, 'nsync_mu_lock_slow_': 2})
+        add('oncep_passive', 'once_basic.c', ['other_then_finish', 'caller_block', 'setup_running', 'final_check_b'], R + 2, ONCE_UNITS, ninit=1, nfinal=1, excl=ONLY_MU, timeout=6000,
+            extra=dict(BIG, prune_calls=[['nsync_mu_lock', 'nsync_waiter_new_'], ['nsync_mu_rlock', 'nsync_waiter_new_']]))
         add('once_nested', 'once_basic.c', ['caller_nested', 'caller_nested', 'final_check_b'], R, ONCE_UNITS, nfinal=1, excl=ONLY_MU, extra=BIG, timeout=6000)
         add('once_arg_twice', 'once_basic.c', ['caller_arg', 'caller_twice', 'final_check'], R, ONCE_UNITS, nfinal=1, excl=ONLY_MU, extra=BIG, timeout=3000)
         add('once_block_block_other', 'once_basic.c', ['caller_block', 'caller_block', 'caller_other', 'final_check_b'], R, ONCE_UNITS, nfinal=1, excl=ONLY_MU, extra=BIG, timeout=6000)
